@@ -343,10 +343,10 @@ theorem takeWhile_append_stop {p : Nat → Bool} (a r : Str) (ha : ∀ c ∈ a, 
   | nil =>
     cases r with
     | nil => simp
-    | cons d ds => simp [List.takeWhile, List.dropWhile, hr d rfl]
+    | cons d ds => simp [hr d rfl]
   | cons c cs ih =>
     have := ih (fun x hx => ha x (by simp [hx]))
-    simp [List.takeWhile, List.dropWhile, ha c (by simp), this.1, this.2]
+    simp [ha c (by simp), this.1, this.2]
 
 theorem takeWhile_all {p : Nat → Bool} (a : Str) (ha : ∀ c ∈ a, p c = true) : a.takeWhile p = a := by
   have := (takeWhile_append_stop (p := p) a [] ha (by simp)).1
@@ -477,7 +477,7 @@ theorem collapseAux_map_esc (s : Str) (b : Bool) :
   | nil => rfl
   | cons c cs ih =>
     cases h : Names.isSep c
-    · simp [Names.collapseAux, esc_sep, h, esc_nonsep c h, ih]
+    · simp [Names.collapseAux, h, esc_nonsep c h, ih]
     · simp [Names.collapseAux, esc_sep, h, ih]
 
 theorem escapeName_eq (n : Str) : FnSpec.escapeName Names.lowerCp n = (Names.canon n).map esc := by
